@@ -21,6 +21,10 @@ func init() {
 			"enumerated refusal conditions (NO-EXTRA-REFUSAL). Values of the per-address conjunction over slices beyond the sticky-false structure.",
 		Run: runC10,
 		Mutants: []Mutant{
+			{Name: "endpoint-scan-stops-at-foreign-node", File: "speaker/bgp_controller.go",
+				Old: "\t\t\tif filterNode(node) {\n\t\t\t\tcontinue", New: "\t\t\tif filterNode(node) {\n\t\t\t\tbreak", Expect: "STICKY-FALSE"},
+			{Name: "unknown-network-status-counts-as-unavailable", File: "internal/k8s/nodes/nodes.go",
+				Old: "== corev1.ConditionTrue", New: "!= corev1.ConditionFalse", Expect: "NODE-NETWORK"},
 			{Name: "exclusion-label-needs-value-true", File: "internal/k8s/nodes/nodes.go",
 				Old: "\tif _, ok := n.Labels[corev1.LabelNodeExcludeBalancers]; ok {", New: "\tif v, ok := n.Labels[corev1.LabelNodeExcludeBalancers]; ok && v == \"true\" {", Expect: "NODE-EXCLUDED"},
 			{Name: "unavailable-guard-dropped", File: "speaker/bgp_controller.go",
@@ -47,6 +51,7 @@ func init() {
 
 func runC10(p *chk.Prog, r *chk.Report) {
 	nodeExclusionRule(p, r)
+	nodeNetworkRule(p, r)
 	c10Guards(p, r)
 	c10Sticky(p, r)
 	canServeRule(p, r)
@@ -200,7 +205,23 @@ func c10Guards(p *chk.Prog, r *chk.Report) {
 					pg.Dominated(rt, pg.GPat(true, "A.Nodes[N]", chk.H("A", rangeVal(pm, rs)), chk.H("N", isParamIdx(pm, 1))))
 				z.Check("poolMatchesNodeBGP:true-needs-selecting-advertisement", rt.Pos(), ok, "", "poolMatchesNodeBGP can be true without a BGP advertisement of the pool selecting the node")
 			} else if len(res) == 1 && !pm.IsConstBool(res[0], false) {
-				z.Fail("poolMatchesNodeBGP:return-shape", rt.Pos(), "a return that is not a boolean constant")
+				// `len(L) > 0` / `len(L) != 0` for the list of the pool's advertisements that select the node
+				okLen := false
+				for _, pat := range []string{"len(L) > 0", "len(L) != 0", "len(L) >= 1"} {
+					if b := pm.MatchNew(pat, res[0]); b != nil {
+						okLen = filteredList(pm, pg, b["L"], func(e ast.Expr) bool {
+							return pm.MatchWith("P.BGPAdvertisements", e, chk.H("P", isParamIdx(pm, 0))) != nil
+						},
+							func(a func(ast.Expr) bool, pos bool) chk.Guard {
+								return pg.GPat(pos, "A.Nodes[N]", chk.H("A", a), chk.H("N", isParamIdx(pm, 1)))
+							})
+					}
+				}
+				if okLen {
+					z.OK("poolMatchesNodeBGP:true-needs-selecting-advertisement", rt.Pos(), "non-emptiness of the list of selecting advertisements")
+				} else {
+					z.Fail("poolMatchesNodeBGP:return-shape", rt.Pos(), "a return that is not a boolean constant")
+				}
 			}
 		}
 	}
